@@ -3,10 +3,12 @@ import Darling.Derive.Outer
 import Darling.Derive.Magic
 import Darling.Options
 /-
-  Driver-side glue (not used by any theorem): resolves the declarations of the receiver corpus
-  with the derive-time model and attaches behaviour (field converters through `hooksOf`, the
-  library of custom functions of the harness, defaults) to obtain the semantic receivers the
-  run-time model is executed on.
+  Assembly of the semantic receivers of a corpus: resolves each declaration with the derive-time
+  model (`Options.derive`) and attaches behaviour (field converters through `hooksOf`, the library
+  of custom functions of the harness, defaults) to obtain the `SStruct` / `SEnum` / `SOuter` values
+  the run-time model is executed on.  Everything is total: receivers refer to each other by name,
+  and the recursion through the corpus is indexed by a fuel (the nesting depth; the driver uses the
+  size of the corpus, which bounds it).
 -/
 open Options Derive
 
@@ -18,7 +20,7 @@ structure T where
   thr : Nat
 
 /-- `Default::default()` of the field types the corpus uses -/
-partial def defaultOf (o : Oracle) : Ty → Val
+def defaultOf (o : Oracle) : Ty → Val
   | .unit => .unit
   | .bool => .bool false
   | .char => .char (Char.ofNat 0)
@@ -74,18 +76,8 @@ def elemTy : Ty → Ty
   | .vec t => t
   | t => t
 
-mutual
-/-- hooks of the derived receiver `name` of the corpus -/
-partial def recvHooks (env : T) (name : String) : Hooks Val :=
-  match env.decls.find? (·.1 == name) with
-  | none => {}
-  | some (_, t, d, sp) =>
-      match derive t env.oracle (fun _ => none) sp d with
-      | .ok (.fromMeta r) => fromMetaHooks env r
-      | _ => {}
-
-partial def semField (env : T) (f : RField) : SField Val :=
-  let rh := recvHooks env
+/-- a field of a derived receiver, with the hooks `rh` of the other receivers of the corpus -/
+def semField (env : T) (rh : String → Hooks Val) (f : RField) : SField Val :=
   let o := env.oracle
   let post? := f.post.bind customPost
   let srcTy : Ty := match post? with
@@ -110,9 +102,9 @@ partial def semField (env : T) (f : RField) : SField Val :=
       | .trait_ _ => .value (defaultOf o f.ty)),
     skip := f.skip, multiple := f.multiple, flatten := f.flatten }
 
-partial def semStruct (env : T) (core : RCore) (fields : List RField) (build : List (String × Val) → Val) : SStruct Val :=
+def semStruct (env : T) (rh : String → Hooks Val) (core : RCore) (fields : List RField) (build : List (String × Val) → Val) : SStruct Val :=
   let o := env.oracle
-  { fields := fields.map (semField env),
+  { fields := fields.map (semField env rh),
     allowUnknown := core.allowUnknown,
     containerDefault := core.dflt.map (fun _ =>
       match o.val? ("cdefault:" ++ core.ident) with
@@ -126,7 +118,7 @@ partial def semStruct (env : T) (core : RCore) (fields : List RField) (build : L
     score := o.score,
     thr := env.thr }
 
-partial def fromMetaHooks (env : T) (r : RFromMeta) : Hooks Val :=
+def fromMetaHooks (env : T) (rh : String → Hooks Val) (r : RFromMeta) : Hooks Val :=
   let o := env.oracle
   let core := r.base
   let fromWord : Option (Outcome Val) := r.fromWord.map (fun w => match w with
@@ -138,9 +130,9 @@ partial def fromMetaHooks (env : T) (r : RFromMeta) : Hooks Val :=
   match core.data with
   | .struct .unit _ => structHooks (.unit (.record core.ident [])) none none
   | .struct .tuple [f] =>
-      structHooks (.newtype (hooksOf o (recvHooks env) f.ty) (fun v => .record core.ident [("0", v)])) none none
+      structHooks (.newtype (hooksOf o rh f.ty) (fun v => .record core.ident [("0", v)])) none none
   | .struct _ fields =>
-      structHooks (.named (semStruct env core fields (fun kvs => .record core.ident kvs))) fromWord fromNone
+      structHooks (.named (semStruct env rh core fields (fun kvs => .record core.ident kvs))) fromWord fromNone
   | .enum variants =>
       enumHooks {
         variants := variants.map (fun v =>
@@ -148,13 +140,26 @@ partial def fromMetaHooks (env : T) (r : RFromMeta) : Hooks Val :=
             kind := match v.style, v.fields with
               | .unit, _ => .unit (.variant core.ident v.ident .unit)
               | .tuple, [f] =>
-                  let h := hooksOf o (recvHooks env) f.ty
+                  let h := hooksOf o rh f.ty
                   .newtype h.fromMeta h.fromNone (fun x => .variant core.ident v.ident x)
               | _, fs =>
-                  .struct (semStruct env { core with allowUnknown := v.allowUnknown, dflt := core.dflt, post := none } fs
+                  .struct (semStruct env rh { core with allowUnknown := v.allowUnknown, dflt := core.dflt, post := none } fs
                     (fun kvs => .variant core.ident v.ident (.record v.ident kvs))) }),
         score := o.score, thr := env.thr, fromWord := fromWord, fromNone := fromNone }
-end
+
+/-- hooks of the derived receiver `name` of the corpus, nested receivers resolved to depth `fuel` -/
+def recvHooksF : Nat → T → String → Hooks Val
+  | 0, _, _ => {}
+  | fuel + 1, env, name =>
+      match env.decls.find? (·.1 == name) with
+      | none => {}
+      | some (_, t, d, sp) =>
+          match derive t env.oracle (fun _ => none) sp d with
+          | .ok (.fromMeta r) => fromMetaHooks env (recvHooksF fuel env) r
+          | _ => {}
+
+/-- the corpus size bounds the nesting depth of an acyclic corpus -/
+def recvHooks (env : T) (name : String) : Hooks Val := recvHooksF (env.decls.length + 1) env name
 
 end Env
 
@@ -189,55 +194,47 @@ def sortKvs (kvs : List (String × Val)) : List (String × Val) :=
       | x :: xs => if kv.1 < x.1 then kv :: x :: xs else x :: ins xs
     ins acc) []
 
-mutual
-/-- run the element-level receiver `name` on an input element -/
-partial def outerRun (env : T) (name : String) (el : Elem) : Outcome Val :=
-  match env.decls.find? (·.1 == name) with
-  | none => .err (Err.custom ("unknown receiver " ++ name))
-  | some (_, t, d, sp) =>
-      let sim := fun (n : String) => Suggest.didYouMean env.thr [("with", env.oracle.score n "with")]
-      match derive t env.oracle sim sp d with
-      | .ok (.outer r) => runOuter env r el
-      | .ok (.fromMeta _) => .err (Err.custom "not an element-level receiver")
-      | .err e => .err e
-      | .panic m => .panic m
+/-- converter for one entry of a body (`FromField` / `FromVariant` / `FromTypeParam` of the entry
+    type, read off its printed name); `run` resolves corpus receivers; the fuel bounds wrapper nesting -/
+def entryConvF (run : String → Elem → Outcome Val) : Nat → String → Elem → Outcome Val
+  | 0, n, _ => .err (Err.custom ("entry type nested too deeply in the model: " ++ n))
+  | fuel + 1, tyName, el =>
+      match tyName, el with
+      | "()", _ => .ok .unit
+      | "syn::Type", .field f => .ok (.toks f.tyToks)
+      | "syn::Visibility", .field f => .ok (.toks f.vis)
+      | "syn::Ident", .variant v => .ok (.toks v.ident)
+      | "syn::Ident", .typeParam t => .ok (.toks t.ident)
+      | "syn::TypeParam", .typeParam t => .ok (.toks t.toks)
+      | "syn::Field", .field f => .ok (.toks f.toks)
+      | "syn::Variant", .variant v => .ok (.toks v.toks)
+      | "Vec<syn::Attribute>", el => .ok (.list (el.attrsOf.map (fun a => .toks a.toks)))
+      | n, el =>
+          match unwrapTy "SpannedValue<" n, unwrapTy "WithOriginal<" n with
+          | some inner, _ =>
+              -- `spanned!`: the inner conversion, its error spanned with the element, the element's span kept
+              (match el.span? with
+               | some sp => ((entryConvF run fuel inner el).mapErr (·.withSpan sp)).map (fun v => .spanned v (some sp))
+               | none => .err (Err.custom "SpannedValue entry without a span in the model"))
+          | none, some args =>
+              -- `with_original!`: the inner conversion plus a clone of the element
+              (match typeArgs ("W<" ++ args ++ ">") with
+               | [inner, _] => (entryConvF run fuel inner el).map (fun v => .withOrig v el.toks)
+               | _ => .err (Err.custom ("cannot read type arguments of " ++ n)))
+          | none, none => run n el
 
-/-- converter for one entry of a body (`FromField` / `FromVariant` of the entry type) -/
-partial def entryConv (env : T) (tyName : String) (el : Elem) : Outcome Val :=
-  match tyName, el with
-  | "()", _ => .ok .unit
-  | "syn::Type", .field f => .ok (.toks f.tyToks)
-  | "syn::Visibility", .field f => .ok (.toks f.vis)
-  | "syn::Ident", .variant v => .ok (.toks v.ident)
-  | "syn::Ident", .typeParam t => .ok (.toks t.ident)
-  | "syn::TypeParam", .typeParam t => .ok (.toks t.toks)
-  | "syn::Field", .field f => .ok (.toks f.toks)
-  | "syn::Variant", .variant v => .ok (.toks v.toks)
-  | "Vec<syn::Attribute>", el => .ok (.list (el.attrsOf.map (fun a => .toks a.toks)))
-  | n, el =>
-      match unwrapTy "SpannedValue<" n, unwrapTy "WithOriginal<" n with
-      | some inner, _ =>
-          -- `spanned!`: the inner conversion, its error spanned with the element, the element's span kept
-          (match el.span? with
-           | some sp => ((entryConv env inner el).mapErr (·.withSpan sp)).map (fun v => .spanned v (some sp))
-           | none => .err (Err.custom "SpannedValue entry without a span in the model"))
-      | none, some args =>
-          -- `with_original!`: the inner conversion plus a clone of the element
-          (match typeArgs ("W<" ++ args ++ ">") with
-           | [inner, _] => (entryConv env inner el).map (fun v => .withOrig v el.toks)
-           | _ => .err (Err.custom ("cannot read type arguments of " ++ n)))
-      | none, none => outerRun env n el
-
-partial def runOuter (env : T) (r : ROuter) (el : Elem) : Outcome Val :=
+/-- one element-level receiver on one element; `run` resolves other element-level receivers by
+    name (newtype proxies), `conv` converts body entries / type parameters by type name -/
+def runOuter (env : T) (run : String → Elem → Outcome Val) (conv : String → Elem → Outcome Val) (r : ROuter) (el : Elem) : Outcome Val :=
   let o := env.oracle
   -- newtype receivers proxy to the inner type's own element-level impl
   match r.base.data with
   | .struct .tuple [f] =>
       (match f.ty with
-       | .recv inner => (outerRun env inner el).map (fun v => .record r.base.ident [("0", v)])
+       | .recv inner => (run inner el).map (fun v => .record r.base.ident [("0", v)])
        | _ => .err (Err.custom "unsupported newtype inner"))
   | .struct _ fields =>
-      let st := semStruct env r.base fields (fun kvs => .record r.base.ident (sortKvs kvs))
+      let st := semStruct env (recvHooks env) r.base fields (fun kvs => .record r.base.ident (sortKvs kvs))
       let attrsField : Option (List Attr → Outcome Val) := r.attrsField.map (fun fw =>
         match fw.with_ with
         | none => fun as => .ok (.list (as.map (fun a => .toks a.toks)))
@@ -299,7 +296,7 @@ partial def runOuter (env : T) (r : ROuter) (el : Elem) : Outcome Val :=
                          -- `ast::Generics<P>`
                          (match stripWrap "ast::GenericParam<" pTy with
                           | none => genericsMirror none d.generics
-                          | some tTy => genericsMirror (some (fun t => entryConv env tTy (.typeParam t))) d.generics)
+                          | some tTy => genericsMirror (some (fun t => conv tTy (.typeParam t))) d.generics)
                    let v : Outcome Val :=
                      match stripWrap "darling::Result<" gTy, stripWrap "WithOriginal<" gTy with
                      | some inner, _ =>
@@ -324,7 +321,7 @@ partial def runOuter (env : T) (r : ROuter) (el : Elem) : Outcome Val :=
                        | none =>
                            (match typeArgs dataTy with
                             | [vTy, fTy] =>
-                                dataTryFrom (fun f => entryConv env fTy (.field f)) (fun v => entryConv env vTy (.variant v))
+                                dataTryFrom (fun f => conv fTy (.field f)) (fun v => conv vTy (.variant v))
                                   (fun style vs => .variant "Data" "Struct" (.record (styleName style) [("entries", .list vs)]))
                                   (fun vs => .variant "Data" "Enum" (.list vs)) d.body
                             | _ => .err (Err.custom ("cannot read type arguments of " ++ dataTy)))
@@ -333,7 +330,7 @@ partial def runOuter (env : T) (r : ROuter) (el : Elem) : Outcome Val :=
             | .variant v =>
                 (if has "fields" then
                    [("fields", match typeArgs fieldsTy with
-                      | [fTy] => (match fieldsTryFrom (fun f => entryConv env fTy (.field f)) v.fields [] [] with
+                      | [fTy] => (match fieldsTryFrom (fun f => conv fTy (.field f)) v.fields [] [] with
                           | .error m => .panic m
                           | .ok (vs, []) => .ok (.record (styleName v.style) [("entries", .list vs)])
                           | .ok (_, errs) => Err.bundleErr errs)
@@ -342,6 +339,23 @@ partial def runOuter (env : T) (r : ROuter) (el : Elem) : Outcome Val :=
             | _ => []
           finishOuter so pst attrsVal validate late early (fun kvs => .record r.base.ident (sortKvs kvs))
   | .enum _ => .err (Err.custom "element-level receivers are structs")
-end
+
+/-- run the element-level receiver `name` on an input element, other element-level receivers
+    resolved to depth `fuel` -/
+def outerRunF : Nat → T → String → Elem → Outcome Val
+  | 0, _, name, _ => .err (Err.custom ("receivers nested too deeply in the model: " ++ name))
+  | fuel + 1, env, name, el =>
+      match env.decls.find? (·.1 == name) with
+      | none => .err (Err.custom ("unknown receiver " ++ name))
+      | some (_, t, d, sp) =>
+          let sim := fun (n : String) => Suggest.didYouMean env.thr [("with", env.oracle.score n "with")]
+          match derive t env.oracle sim sp d with
+          | .ok (.outer r) => runOuter env (outerRunF fuel env) (entryConvF (outerRunF fuel env) 8) r el
+          | .ok (.fromMeta _) => .err (Err.custom "not an element-level receiver")
+          | .err e => .err e
+          | .panic m => .panic m
+
+def outerRun (env : T) (name : String) (el : Elem) : Outcome Val := outerRunF (env.decls.length + 1) env name el
+
 
 end Env
